@@ -584,7 +584,7 @@ func specPreorderAll(roots []*Node, i int) []*Node {
 //@ stream walkRelay(wn, e)
 //@   subject r, c
 //@   requires live [C05,C12]: !itFailed1 && !itStopped1
-//@   requires node [C05]: e == nil ==> wn != nil && wn.origin != nil && (c.encode == encodeDefault ==> grown(c.lastNodeFormat, c.intermedialNodeFormat, r))
+//@   requires node [C05,C13]: e == nil ==> wn != nil && wn.origin != nil && (c.encode == encodeDefault ==> grown(c.lastNodeFormat, c.intermedialNodeFormat, r))
 //@   requires rejected: e != nil ==> wn == nil
 //@   records itTrace1 := e == nil ? itTrace1 ++ seqof(wn.origin) : itTrace1
 //@   records itFailed1 := itFailed1 || e != nil
@@ -610,14 +610,14 @@ func specPreorderAll(roots []*Node, i int) []*Node {
 //@ stream walkOut(wn, e)
 //@   subject r
 //@   requires live [C05,C12]: !itFailed2 && !itStopped2
-//@   requires node [C05]: e == nil ==> wn != nil && wn.origin != nil && r != nil && lastConfig != nil && (lastConfig.encode == encodeDefault ==> grown(lastConfig.lastNodeFormat, lastConfig.intermedialNodeFormat, r))
+//@   requires node [C05,C13]: e == nil ==> wn != nil && wn.origin != nil && r != nil && lastConfig != nil && (lastConfig.encode == encodeDefault ==> grown(lastConfig.lastNodeFormat, lastConfig.intermedialNodeFormat, r))
 //@   requires rejected [C03]: e != nil ==> wn == nil
 //@   records itTrace2 := e == nil ? itTrace2 ++ seqof(wn.origin) : itTrace2
 //@   records itFailed2 := itFailed2 || e != nil
 //@   records itErr2 := e
 //@   stops itStopped2
 //@   modifies nothing
-//@   ensures order [C05,C03]: !itFailed2 && !itStopped2 ==> r != nil && r.hierarchy == 1 && itTrace2 == specPreorder(r)
+//@   ensures order [C05,C03,C13]: !itFailed2 && !itStopped2 ==> r != nil && r.hierarchy == 1 && itTrace2 == specPreorder(r)
 
 //@ contract fromRootWalkIter
 //@   yields walkOut(root)
@@ -797,16 +797,20 @@ func allRootsT(rs []*Node) bool { return true }
 // allRoots(rs): a forest as the generators produce it.
 //@ pred allRoots(rs []*Node): forall k int :: {rs[k]} 0 <= k && k < len(rs) ==> rs[k] != nil && rs[k].hierarchy == 1
 
-// treeSimple.output has two routes: the plain one (noUseIterOfSimpleOutput) is verified here; the route through the
-// three iterator closures (iter.Pull2 coroutines) is not covered by this contract (marked partial; see DESIGN.md).
+// treeSimple.output has two routes. The plain one (noUseIterOfSimpleOutput, used by the benchmarks) generates the whole
+// forest first: its clauses speak about lastForest. The route the library normally takes runs the three iterator
+// closures (iter.Pull2 coroutines): its clause (iter) says that everything owed for the roots handed over (spText, see
+// the stream section) was written, that the spreader received every root the generator yielded, in order, and that
+// the generator did not fail.
 //@ func gtree.treeSimple.output
 //@   requires ok: simpleTreeOK(t, cfg)
-//@   modifies Node.children, Node.parent, Node.brnch.value, Node.brnch.path, list.List.view, list.Element.backOf, counter.n, bufio.Scanner.pos, bufio.Scanner.failed, markdown.Parser.isSharpRoot, markdown.Parser.spaces, markdown.Parser.sep, out, wfail, defaultSpreaderSimple.w, encTrace, encoders, lastForest
+//@   modifies Node.children, Node.parent, Node.brnch.value, Node.brnch.path, list.List.view, list.Element.backOf, counter.n, bufio.Scanner.pos, bufio.Scanner.failed, markdown.Parser.isSharpRoot, markdown.Parser.spaces, markdown.Parser.sep, out, wfail, defaultSpreaderSimple.w, encTrace, encoders, lastForest, rsRoots, rsFailed, rsStopped, rsErr, gsRoots, gsFailed, gsStopped, gsErr, spRoots, spText, esFailed
 //@   ghostset lastForest := roots
 //@   use lemma lemmaRawAllIsRenderAll
 //@   ensures accepted [C14]: cfg.encode == encodeDefault && result == nil ==> old(wfail) || !wfail
 //@   ensures render [C01]: cfg.noUseIterOfSimpleOutput && cfg.encode == encodeDefault && !cfg.dryrun && result == nil ==> (allRoots(lastForest) && out[w] == old(out[w]) ++ specRenderAll(cfg.lastNodeFormat, cfg.intermedialNodeFormat, lastForest, len(lastForest)))
 //@   ensures report [C09]: cfg.noUseIterOfSimpleOutput && cfg.encode == encodeDefault && cfg.dryrun && result == nil ==> (allRoots(lastForest) && (forall k int :: {lastForest[k]} 0 <= k && k < len(lastForest) ==> validated(lastForest[k])) && out[w] == old(out[w]) ++ specDryReport(as(t.spreader, colorizeSpreaderSimple).fileColor, as(t.spreader, colorizeSpreaderSimple).dirColor, cfg.fileExtensions, lastForest, len(lastForest)))
+//@   ensures iter [C01,C02,C09]: !cfg.noUseIterOfSimpleOutput && cfg.encode == encodeDefault && result == nil ==> out[w] == old(out[w]) ++ spText && spRoots == rsRoots && !rsFailed
 //@   ensures dryfs [C09]: fsOps == old(fsOps) && fsFailed == old(fsFailed)
 //@   ensures sticky [C14]: cfg.noUseIterOfSimpleOutput && old(wfail) ==> wfail
 
@@ -847,18 +851,18 @@ func lemmaRawAllIsRenderAll(last, mid branchFormat, roots []*Node, i int) {
 
 //@ func gtree.treePipeline.output
 //@   assumed
-//@   modifies Node.children, Node.parent, Node.brnch.value, Node.brnch.path, list.List.view, list.Element.backOf, counter.n, bufio.Scanner.pos, bufio.Scanner.failed, markdown.Parser.isSharpRoot, markdown.Parser.spaces, markdown.Parser.sep, out, wfail, defaultSpreaderSimple.w, encTrace, encoders, lastForest
+//@   modifies Node.children, Node.parent, Node.brnch.value, Node.brnch.path, list.List.view, list.Element.backOf, counter.n, bufio.Scanner.pos, bufio.Scanner.failed, markdown.Parser.isSharpRoot, markdown.Parser.spaces, markdown.Parser.sep, out, wfail, defaultSpreaderSimple.w, encTrace, encoders, lastForest, rsRoots, rsFailed, rsStopped, rsErr, gsRoots, gsFailed, gsStopped, gsErr, spRoots, spText, esFailed
 //@ func gtree.treePipeline.walk
 //@   assumed
 //@   modifies Node.children, Node.parent, Node.brnch.value, Node.brnch.path, list.List.view, list.Element.backOf, counter.n, bufio.Scanner.pos, bufio.Scanner.failed, markdown.Parser.isSharpRoot, markdown.Parser.spaces, markdown.Parser.sep, cbTrace, cbFailed, cbLastErr, lastForest
 
 //@ contract fromMarkdownOutput
-//@   modifies Node.children, Node.parent, Node.brnch.value, Node.brnch.path, list.List.view, list.Element.backOf, counter.n, bufio.Scanner.pos, bufio.Scanner.failed, markdown.Parser.isSharpRoot, markdown.Parser.spaces, markdown.Parser.sep, out, wfail, defaultSpreaderSimple.w, encTrace, encoders, libWriter, libFailed, libCalls, lastConfig, lastForest
+//@   modifies Node.children, Node.parent, Node.brnch.value, Node.brnch.path, list.List.view, list.Element.backOf, counter.n, bufio.Scanner.pos, bufio.Scanner.failed, markdown.Parser.isSharpRoot, markdown.Parser.spaces, markdown.Parser.sep, out, wfail, defaultSpreaderSimple.w, encTrace, encoders, libWriter, libFailed, libCalls, lastConfig, lastForest, rsRoots, rsFailed, rsStopped, rsErr, gsRoots, gsFailed, gsStopped, gsErr, spRoots, spText, esFailed
 //@   ghostset lastConfig := cfg
 //@   ghostset libWriter := w
 //@   ghostset libFailed := old(libFailed) || result != nil
 //@   ghostset libCalls := old(libCalls) + 1
-//@   ensures render [C01,C03,C12,C14,C17]: fresh(lastConfig) && (!lastConfig.massive && lastConfig.encode == encodeDefault && !lastConfig.dryrun && result == nil ==> (old(wfail) || !wfail) && (lastConfig.noUseIterOfSimpleOutput ==> (allRoots(lastForest) && out[w] == old(out[w]) ++ specRenderAll(lastConfig.lastNodeFormat, lastConfig.intermedialNodeFormat, lastForest, len(lastForest)))))
+//@   ensures render [C01,C03,C12,C14,C17]: fresh(lastConfig) && (!lastConfig.massive && lastConfig.encode == encodeDefault && !lastConfig.dryrun && result == nil ==> (old(wfail) || !wfail) && (lastConfig.noUseIterOfSimpleOutput ==> (allRoots(lastForest) && out[w] == old(out[w]) ++ specRenderAll(lastConfig.lastNodeFormat, lastConfig.intermedialNodeFormat, lastForest, len(lastForest)))) && (!lastConfig.noUseIterOfSimpleOutput ==> out[w] == old(out[w]) ++ spText && spRoots == rsRoots && !rsFailed))
 //@   ensures dryfs [C09]: fsOps == old(fsOps) && fsFailed == old(fsFailed)
 //@ applies fromMarkdownOutput to gtree.OutputFromMarkdown, gtree.Output
 
@@ -871,38 +875,88 @@ func lemmaRawAllIsRenderAll(last, mid branchFormat, roots []*Node, i int) {
 //@ applies fromMarkdownWalk to gtree.WalkFromMarkdown, gtree.Walk
 
 // ---------------------------------------------------------------------------------------------
-// Iterator route of OutputFromMarkdown: three coroutines (iter.Pull2) connected by streams.
-// A stream fixes the values a producer may yield (requires), what the consumer may modify between two yields
-// (modifies) and what resuming the producer may modify (resumes). Heap separation between the trees already
-// yielded and the one under construction is not modelled: functional facts do not survive a resume.
+// Iterator route of OutputFromMarkdown (the route the library uses unless noUseIterOfSimpleOutput is set):
+// three coroutines (iter.Pull2) connected by streams:   generateIter --rootStream--> growIter --grownStream-->
+// spreadIter --errStream--> treeSimple.output.
+// A stream fixes the values a producer may yield (requires), what it records in ghost variables at every yield
+// (records; reset when a producer starts; mirrored where the consumer receives the value), what the consumer may modify
+// between two yields (modifies), what resuming the producer may modify (resumes) and what holds when the producer
+// finishes (ensures). Heap separation between the trees already yielded and the one under construction is not
+// modelled: nothing about an earlier tree survives a resume of the generator. The functional statement is therefore
+// made per root at hand-over time: spText accumulates, when the spreader receives a root, the text the drawing rule
+// (specRender) / the dry-run rule (specDryRoot) prescribes for that root as it is at that moment (the generator hands
+// a root over only when its block is closed), and the spreader's finish condition is out == old(out) ++ spText.
+//   rsRoots  roots yielded by the generator       rsFailed  it yielded an error    rsStopped  its consumer stopped it
+//   gsRoots  roots yielded by the grower          gsFailed / gsStopped             likewise
+//   spRoots  roots received by the spreader       spText    text owed for them     esFailed   the spreader reported an error
+//@ ghost var rsRoots []*Node
+//@ ghost var rsFailed bool
+//@ ghost var rsStopped bool
+//@ ghost var rsErr error
+//@ ghost var gsRoots []*Node
+//@ ghost var gsFailed bool
+//@ ghost var gsStopped bool
+//@ ghost var gsErr error
+//@ ghost var spRoots []*Node
+//@ ghost var spText string
+//@ ghost var esFailed bool
 
+// rg: the generator that produces the stream
 //@ stream rootStream(n, e)
-//@   refines grownStream
+//@   subject rg *rootGeneratorSimple
+//@   refines grownStream with gsRoots=rsRoots, gsFailed=rsFailed, gsStopped=rsStopped, gsErr=rsErr
+//@   requires live [C12,C14]: !rsFailed && !rsStopped
 //@   requires nonnil [C12]: e == nil ==> n != nil && n.hierarchy == 1
-//@   modifies Node.brnch.value, Node.brnch.path, out, wfail, defaultSpreaderSimple.w, counter.n
+//@   requires readerr [C14]: rg != nil && rg.scanner != nil && rg.scanner.failed ==> e == rg.scanner.err
+//@   records rsRoots := e == nil ? rsRoots ++ seqof(n) : rsRoots
+//@   records rsFailed := rsFailed || e != nil
+//@   records rsErr := e
+//@   stops rsStopped
+//@   ensures reported [C14]: !rsStopped && rg != nil && rg.scanner != nil && rg.scanner.failed ==> rsFailed
+//@   ensures consumed [C02]: !rsStopped && !rsFailed && rg != nil && rg.scanner != nil ==> rg.scanner.pos == len(rg.scanner.lines)
+//@   modifies Node.brnch.value, Node.brnch.path, out, wfail, defaultSpreaderSimple.w, counter.n, gsRoots, gsFailed, gsStopped, gsErr, spRoots, spText, esFailed, encTrace, encoders
 //@   resumes Node.children, Node.parent, list.List.view, list.Element.backOf, counter.n, bufio.Scanner.pos, bufio.Scanner.failed, markdown.Parser.isSharpRoot, markdown.Parser.spaces, markdown.Parser.sep
 
+// g: the grower that produces the stream (nil when a generator's stream is used directly: nothing is grown then)
 //@ stream grownStream(n, e)
+//@   subject g *defaultGrowerSimple
+//@   requires live [C12,C14]: !gsFailed && !gsStopped
 //@   requires nonnil [C12]: e == nil ==> n != nil && n.hierarchy == 1
-//@   modifies out, wfail, defaultSpreaderSimple.w, counter.n
-//@   resumes Node.children, Node.parent, list.List.view, list.Element.backOf, counter.n, bufio.Scanner.pos, bufio.Scanner.failed, markdown.Parser.isSharpRoot, markdown.Parser.spaces, markdown.Parser.sep, Node.brnch.value, Node.brnch.path
+//@   requires grown [C01]: e == nil && g != nil ==> grown(g.lastNodeFormat, g.intermedialNodeFormat, n)
+//@   requires valid [C07,C09]: e == nil && g != nil && g.enabledValidation ==> validated(n)
+//@   requires fwd [C14]: g != nil && rsFailed ==> e == rsErr
+//@   records gsRoots := e == nil ? gsRoots ++ seqof(n) : gsRoots
+//@   records gsFailed := gsFailed || e != nil
+//@   records gsErr := e
+//@   stops gsStopped
+//@   modifies out, wfail, defaultSpreaderSimple.w, counter.n, spRoots, spText, esFailed
+//@   resumes Node.children, Node.parent, list.List.view, list.Element.backOf, counter.n, bufio.Scanner.pos, bufio.Scanner.failed, markdown.Parser.isSharpRoot, markdown.Parser.spaces, markdown.Parser.sep, Node.brnch.value, Node.brnch.path, rsRoots, rsFailed, rsStopped, rsErr
+//@   ensures all [C01,C02]: !gsFailed && !gsStopped ==> gsRoots == rsRoots && !rsFailed && !rsStopped
 
+// sp: the spreader, w: the writer it was given, g: the grower whose stream it consumes (nil: none)
 //@ stream errStream(e)
+//@   subject sp, w, g *defaultGrowerSimple
 //@   requires err [C14]: e != nil
-//@   ensures accepted [C14]: old(wfail) || !wfail
+//@   requires fwd [C14]: (!isType(sp, formattedSpreaderSimple) && gsFailed ==> e == gsErr) && (isType(sp, formattedSpreaderSimple) && rsFailed ==> e == rsErr)
+//@   records esFailed := true
+//@   tracks spRoots, spText
 //@   modifies nothing
-//@   resumes Node.children, Node.parent, list.List.view, list.Element.backOf, counter.n, bufio.Scanner.pos, bufio.Scanner.failed, markdown.Parser.isSharpRoot, markdown.Parser.spaces, markdown.Parser.sep, Node.brnch.value, Node.brnch.path, out, wfail, defaultSpreaderSimple.w
+//@   resumes Node.children, Node.parent, list.List.view, list.Element.backOf, counter.n, bufio.Scanner.pos, bufio.Scanner.failed, markdown.Parser.isSharpRoot, markdown.Parser.spaces, markdown.Parser.sep, Node.brnch.value, Node.brnch.path, out, wfail, defaultSpreaderSimple.w, rsRoots, rsFailed, rsStopped, rsErr, gsRoots, gsFailed, gsStopped, gsErr, spRoots, spText, encTrace, encoders
+//@   ensures accepted [C14]: !esFailed ==> old(wfail) || !wfail
+//@   ensures text [C01,C09]: !esFailed && g != nil && (isType(sp, defaultSpreaderSimple) || isType(sp, colorizeSpreaderSimple)) ==> out[w] == old(out[w]) ++ spText
+//@   ensures all [C01,C02]: !esFailed ==> spRoots == rsRoots && !rsFailed && !rsStopped
 
 //@ func gtree.rootGeneratorSimple.generateIter
 //@   requires ok: genOK(rg)
-//@   yields rootStream
+//@   yields rootStream(rg)
 //@ closure gtree.rootGeneratorSimple.generateIter#1
-//@   yields rootStream
+//@   yields rootStream(rg)
 //@   requires ok: genOK(rg)
 //@   requires init: stack == nil && root == nil
-//@   modifies Node.children, Node.parent, list.List.view, list.Element.backOf, counter.n, bufio.Scanner.pos, bufio.Scanner.failed, markdown.Parser.isSharpRoot, markdown.Parser.spaces, markdown.Parser.sep, Node.brnch.value, Node.brnch.path, out, wfail, defaultSpreaderSimple.w
+//@   modifies Node.children, Node.parent, list.List.view, list.Element.backOf, counter.n, bufio.Scanner.pos, bufio.Scanner.failed, markdown.Parser.isSharpRoot, markdown.Parser.spaces, markdown.Parser.sep, Node.brnch.value, Node.brnch.path, out, wfail, defaultSpreaderSimple.w, rsRoots, rsFailed, rsStopped, rsErr, gsRoots, gsFailed, gsStopped, gsErr, spRoots, spText, esFailed, encTrace, encoders
 //@ loop gtree.rootGeneratorSimple.generateIter#1#1
 //@   invariant ok: genOK(rg)
+//@   invariant live: !rsFailed && !rsStopped
 //@   invariant root: root != nil ==> root.hierarchy == 1
 //@   invariant open: stack != nil ==> chain(stack)
 //@   invariant closed: stack == nil ==> root == nil
@@ -911,39 +965,51 @@ func lemmaRawAllIsRenderAll(last, mid branchFormat, roots []*Node, i int) {
 //@ func gtree.defaultGrowerSimple.growIter
 //@   requires nn: dg != nil
 //@   param rootIter follows rootStream
-//@   yields grownStream
+//@   yields grownStream(dg)
 //@ closure gtree.defaultGrowerSimple.growIter#1
-//@   yields grownStream
+//@   yields grownStream(dg)
 //@   requires nn: dg != nil
-//@   modifies Node.children, Node.parent, list.List.view, list.Element.backOf, counter.n, bufio.Scanner.pos, bufio.Scanner.failed, markdown.Parser.isSharpRoot, markdown.Parser.spaces, markdown.Parser.sep, Node.brnch.value, Node.brnch.path, out, wfail, defaultSpreaderSimple.w
+//@   modifies Node.children, Node.parent, list.List.view, list.Element.backOf, counter.n, bufio.Scanner.pos, bufio.Scanner.failed, markdown.Parser.isSharpRoot, markdown.Parser.spaces, markdown.Parser.sep, Node.brnch.value, Node.brnch.path, out, wfail, defaultSpreaderSimple.w, rsRoots, rsFailed, rsStopped, rsErr, gsRoots, gsFailed, gsStopped, gsErr, spRoots, spText, esFailed
+//@ loop gtree.defaultGrowerSimple.growIter#1#1
+//@   invariant relay [C01,C02]: gsRoots == rsRoots && !rsFailed && !rsStopped && !gsFailed && !gsStopped
 
+// the no-op grower hands the generator's stream on unchanged
 //@ func gtree.nopGrowerSimple.growIter
 //@   param rootIter follows rootStream
-//@   yields grownStream
+//@   yields rootStream
 
 //@ func gtree.defaultSpreaderSimple.spreadIter
 //@   requires nn: ds != nil
-//@   param rootIter follows grownStream
-//@   yields errStream
+//@   param rootIter follows grownStream(g)
+//@   yields errStream(ds, w, g)
 //@ closure gtree.defaultSpreaderSimple.spreadIter#1
-//@   yields errStream
+//@   yields errStream(ds, w, g)
 //@   requires nn: ds != nil
-//@   modifies Node.children, Node.parent, list.List.view, list.Element.backOf, counter.n, bufio.Scanner.pos, bufio.Scanner.failed, markdown.Parser.isSharpRoot, markdown.Parser.spaces, markdown.Parser.sep, Node.brnch.value, Node.brnch.path, out, wfail, defaultSpreaderSimple.w
+//@   modifies Node.children, Node.parent, list.List.view, list.Element.backOf, counter.n, bufio.Scanner.pos, bufio.Scanner.failed, markdown.Parser.isSharpRoot, markdown.Parser.spaces, markdown.Parser.sep, Node.brnch.value, Node.brnch.path, out, wfail, defaultSpreaderSimple.w, rsRoots, rsFailed, rsStopped, rsErr, gsRoots, gsFailed, gsStopped, gsErr, spRoots, spText, esFailed
+//@   use lemma lemmaRawIsRender
+//@   after next: spRoots := (result2 && result1 == nil) ? spRoots ++ seqof(result0) : spRoots
+//@   after next: spText := (result2 && result1 == nil) ? spText ++ specRender(g.lastNodeFormat, g.intermedialNodeFormat, result0) : spText
 //@ loop gtree.defaultSpreaderSimple.spreadIter#1#1
-//@   invariant quiet [C14]: old(wfail) || !wfail
+//@   invariant w: ds.w == w
+//@   invariant relay [C01,C02]: spRoots == gsRoots && !gsFailed && !gsStopped && !esFailed
+//@   invariant sofar [C01]: g != nil ==> out[w] == old(out[w]) ++ spText
+//@   invariant quiet [C14]: wfail == old(wfail)
 
-// Placeholders until the C04 / C09 contracts cover them.
 //@ func gtree.colorizeSpreaderSimple.spreadIter
 //@   requires ok: colorizeOK(cs)
-//@   param rootIter follows grownStream
-//@   yields errStream
+//@   param rootIter follows grownStream(g)
+//@   yields errStream(cs, w, g)
 //@ closure gtree.colorizeSpreaderSimple.spreadIter#1
-//@   yields errStream
+//@   yields errStream(cs, w, g)
 //@   requires ok: colorizeOK(cs)
-//@   modifies Node.children, Node.parent, list.List.view, list.Element.backOf, counter.n, bufio.Scanner.pos, bufio.Scanner.failed, markdown.Parser.isSharpRoot, markdown.Parser.spaces, markdown.Parser.sep, Node.brnch.value, Node.brnch.path, out, wfail, defaultSpreaderSimple.w
+//@   modifies Node.children, Node.parent, list.List.view, list.Element.backOf, counter.n, bufio.Scanner.pos, bufio.Scanner.failed, markdown.Parser.isSharpRoot, markdown.Parser.spaces, markdown.Parser.sep, Node.brnch.value, Node.brnch.path, out, wfail, defaultSpreaderSimple.w, rsRoots, rsFailed, rsStopped, rsErr, gsRoots, gsFailed, gsStopped, gsErr, spRoots, spText, esFailed
+//@   after next: spRoots := (result2 && result1 == nil) ? spRoots ++ seqof(result0) : spRoots
+//@   after next: spText := (result2 && result1 == nil) ? spText ++ specDryRoot(cs.fileColor, cs.dirColor, cs.fileConsiderer.extensions, result0) : spText
 //@ loop gtree.colorizeSpreaderSimple.spreadIter#1#1
 //@   invariant ok: colorizeOK(cs)
-//@   invariant quiet [C14]: old(wfail) || !wfail
+//@   invariant relay [C09,C02]: spRoots == gsRoots && !gsFailed && !gsStopped && !esFailed
+//@   invariant sofar [C09]: out[w] == old(out[w]) ++ spText
+//@   invariant quiet [C14]: wfail == old(wfail)
 
 // ---------------------------------------------------------------------------------------------
 // file_considerer.go, simple_tree_mkdirer.go — over the trace model of /verif/gvc/trusted/fs.spec
@@ -1351,14 +1417,19 @@ func specDryKids(fileColor, dirColor *color.Color, ext []string, n *Node, i int)
 	return specDryKids(fileColor, dirColor, ext, n, i-1) + specDry(fileColor, dirColor, ext, n.children[i-1])
 }
 
-// specDryReport: per root the tree text, a newline, the counts line.
+// specDryRoot: the dry-run report of one root: the tree text, a newline, the counts line.
+func specDryRoot(fileColor, dirColor *color.Color, ext []string, r *Node) string {
+	return specDry(fileColor, dirColor, ext, r) + "\n" + specFmtCounts(specCountDirs(ext, r), specCountFiles(ext, r)) + "\n"
+}
+
+// specDryReport: the reports of the first i roots, in order.
 //@ spec gtree.specDryReport
 //@   decreases i
 func specDryReport(fileColor, dirColor *color.Color, ext []string, roots []*Node, i int) string {
 	if i <= 0 || i > len(roots) {
 		return ""
 	}
-	return specDryReport(fileColor, dirColor, ext, roots, i-1) + specDry(fileColor, dirColor, ext, roots[i-1]) + "\n" + specFmtCounts(specCountDirs(ext, roots[i-1]), specCountFiles(ext, roots[i-1])) + "\n"
+	return specDryReport(fileColor, dirColor, ext, roots, i-1) + specDryRoot(fileColor, dirColor, ext, roots[i-1])
 }
 
 //@ pred colorizeOK(cs *colorizeSpreaderSimple): cs != nil && cs.fileConsiderer != nil && cs.fileCounter != nil && cs.dirCounter != nil && cs.fileCounter != cs.dirCounter && cs.fileColor != nil && cs.dirColor != nil
@@ -1455,8 +1526,33 @@ func specDryReport(fileColor, dirColor *color.Color, ext []string, roots []*Node
 //@   ensures sticky: old(wfail) ==> wfail
 //@ func gtree.formattedSpreaderSimple.spreadIter
 //@   assumed
-//@   param rootIter follows grownStream
-//@   yields errStream
+//@   param rootIter follows rootStream
+//@   yields errStream(f, w, nil)
+
+// spreadIter (the route OutputFromMarkdown takes): the same facts per root received from the generator's stream:
+// one encoder per run, Encode once per root received, in order, with a record of that root's name; the first encoder
+// error or the first error received is yielded and ends the run. (The arity of a record's first level is proved where
+// it is built, toFormattedNode/post#level; it is not restated here because the tree a root belongs to is not framed
+// across a resume of the generator.)
+//@ contract formattedSpreadIterSpec
+//@   requires nn: f != nil && f.encode != nil && f.formattedRoot != nil
+//@   param rootIter follows rootStream
+//@   yields errStream(f, w, nil)
+//@ applies formattedSpreadIterSpec to gtree.formattedSpreaderSimple.spreadIter[jsonNode], gtree.formattedSpreaderSimple.spreadIter[yamlNode], gtree.formattedSpreaderSimple.spreadIter[tomlNode]
+//@ contract formattedSpreadIterBody
+//@   yields errStream(f, w, nil)
+//@   requires nn: f != nil && f.encode != nil && f.formattedRoot != nil
+//@   modifies Node.children, Node.parent, list.List.view, list.Element.backOf, counter.n, bufio.Scanner.pos, bufio.Scanner.failed, markdown.Parser.isSharpRoot, markdown.Parser.spaces, markdown.Parser.sep, Node.brnch.value, Node.brnch.path, out, wfail, defaultSpreaderSimple.w, rsRoots, rsFailed, rsStopped, rsErr, gsRoots, gsFailed, gsStopped, gsErr, spRoots, spText, esFailed, encTrace, encoders
+//@   after next: spRoots := (result2 && result1 == nil) ? spRoots ++ seqof(result0) : spRoots
+//@   ensures once [C04]: encoders == old(encoders) + 1
+//@   ensures trace [C04]: !esFailed ==> len(encTrace) == len(old(encTrace)) + len(spRoots) && (forall k int :: {spRoots[k]} 0 <= k && k < len(spRoots) ==> isType(encTrace[len(old(encTrace)) + k], $T) && as(encTrace[len(old(encTrace)) + k], $T).Name == spRoots[k].name)
+//@ applies formattedSpreadIterBody to gtree.formattedSpreaderSimple.spreadIter[jsonNode]#1, gtree.formattedSpreaderSimple.spreadIter[yamlNode]#1, gtree.formattedSpreaderSimple.spreadIter[tomlNode]#1
+//@ loop gtree.formattedSpreaderSimple.spreadIter#1#1
+//@   invariant relay [C04,C02]: spRoots == rsRoots && !rsFailed && !rsStopped && !esFailed
+//@   invariant once [C04]: encoders == old(encoders) + 1
+//@   invariant trace [C04]: len(encTrace) == len(old(encTrace)) + len(spRoots) && take(encTrace, len(old(encTrace))) == old(encTrace)
+//@   invariant each [C04]: forall k int :: {spRoots[k]} 0 <= k && k < len(spRoots) ==> isType(encTrace[len(old(encTrace)) + k], $T) && as(encTrace[len(old(encTrace)) + k], $T).Name == spRoots[k].name
+//@   invariant quiet [C14]: wfail == old(wfail)
 
 // struct tags of the records handed to the encoders
 //@ tag jsonNode.Name json "value" [C04]
